@@ -1,20 +1,29 @@
 (** C01 — write-then-read round trip is lossless.
 
-    PARTIAL.  The serialized form is [marshal r] = "WARC/" version CRLF, header lines, CRLF,
-    block, CRLF CRLF (Model/Record.v, defaultMarshaler.writeRecord).  Mechanised stage by stage:
-    the header section parses back to exactly the fields with no finding under every policy
-    (theorem below, unbounded field lists, any remainder of the stream); block framing by
-    Content-Length is insensitive to block content (delimiter-imitating bytes); the end-of-record
-    marker is accepted; digests are computed over exactly the serialized block (C02) and a record
-    without length/digest defects passes verification untouched (C03).  The stages are composed in
-    [C01_marshal_then_parse_returns_the_record]: for every valid record (known version, well
+    The serialized form is [marshal r] = "WARC/" version CRLF, header lines, CRLF, block,
+    CRLF CRLF (Model/Record.v, defaultMarshaler.writeRecord).  Reader side
+    ([C01_marshal_then_parse_returns_the_record]): for every valid record (known version, well
     formed header that validates with no finding, truthful Content-Length, block that parses to
     itself, digests absent or valid - under the reader's own options), any following bytes and
     any stream tail, parsing the marshalled form returns exactly that record, no finding, and
-    leaves exactly the following bytes.  Not mechanised: that every record [build] returns is
-    valid in this sense for every reader policy (it is what C02/C03/C17 establish stage by
-    stage), and the gzip container.  Both are evaluated on the implementation (domain rt: build,
-    marshal, plain or gzip, parse under another policy, compare, marshal again). *)
+    leaves exactly the following bytes; the stage theorems (header section round trip for
+    unbounded field lists, framing insensitive to block content, end-of-record marker, layout)
+    are kept below.  Builder side, end to end ([C01_strictly_built_record_round_trips]): whatever
+    the strict builder returns - for clean header fields, ANY content, the length and digest
+    fields left to its add-missing options - is such a valid record for EVERY reader policy,
+    hence is read back from its serialization as exactly that record with no error and no
+    finding.  The theorem states what it needs from the digest text codec as a contract
+    ([codec_ok], [digest_text_clean]); the contract is proved for base16 and every supported
+    algorithm ([C01_base16_meets_the_codec_contract]); without digest fields no contract is
+    needed ([C01_strictly_built_record_round_trips_without_digests]).  Hypotheses the proof
+    forced and the check now respects: the record type given to the builder is 0 or the one
+    its WARC-Type field names (a defect found this way, repaired); the block policy is the one
+    axis with a side condition (the builder rejects block problems or the reader ignores them).
+    Not mechanised: the codec contract for base32 / base64 (oracle decoders), the byte equality
+    of re-marshalling (it follows from record equality by [marshal] being a function, the
+    statement about the implementation is evaluated), and the gzip container.  These are
+    evaluated on the implementation (domain rt: build, marshal, plain or gzip, parse under
+    another policy, compare, marshal again). *)
 Require Import Model.Bytes Model.FieldDef Gen.FieldTable Model.Fields Model.Policy Model.Stream Model.HeaderParse Model.Digest Model.Record.
 Require Import Model.Validate Proofs.HeaderProofs Proofs.RecordProofs Proofs.RoundTripProofs.
 
@@ -196,3 +205,57 @@ Proof.
   - eexists. split; vm_compute; reflexivity.
   - vm_compute; reflexivity.
 Qed.
+
+(** the link, end to end, WITH the digest fields the builder adds (its add-missing options on).
+    The one thing the round trip needs beyond the stages above is stated as a contract on the
+    digest text codec: the text the builder writes for a digest ("algorithm:encoded hash") is read
+    back by newDigest, under whatever default encoding the reader has, as a digest whose declared
+    hash validates against the same bytes ([codec_ok]), and it is a clean header value
+    ([digest_text_clean]).  Given that, whatever the strict builder returns is read back from
+    its serialization as exactly that record, no error, no finding, under every reader policy. *)
+Require Import Proofs.DigestProofs Proofs.CodecProofs.
+Theorem C01_strictly_built_record_round_trips :
+  forall uni_lower uni_upper time_ok ip_ok uri_ok wid_ok mime_dec H b32 b64 http_req_ok http_resp_ok
+         bo o vid rt0 hs content new_id r fnd hs_out d0 d1 rest tl,
+    (vid = 1 \/ vid = 2) -> canonical field_table uni_lower hs ->
+    (forall f, In f hs -> wf_field field_table uni_lower f) ->
+    m_has field_table uni_lower n_content_length hs = false ->
+    m_has field_table uni_lower n_block_digest hs = false ->
+    m_has field_table uni_lower n_payload_digest hs = false ->
+    m_has field_table uni_lower n_record_id hs = true ->
+    (rt0 = 0 \/ rt0 = rt_of uni_lower hs) ->
+    o_spec bo = Fail -> o_unknown bo = Fail -> o_syntax bo = Fail ->
+    (o_block bo = Fail \/ o_block o = Ignore) ->
+    o_add_cl bo = true -> o_add_digest bo = true -> o_fix_wfblock bo = false ->
+    o_skip_parse o = o_skip_parse bo ->
+    new_digest uni_lower uni_upper (o_alg bo) (o_enc bo) = Some d0 -> d_hash d0 = [] -> d_fed d0 = [] ->
+    new_digest uni_lower uni_upper (o_alg o) (o_enc o) = Some d1 ->
+    codec_ok uni_lower uni_upper H b32 b64 (o_enc o) d0 -> digest_text_clean uni_lower H d0 ->
+    (Z.of_nat (List.length content) + 2 <= int64_max)%Z ->
+    build field_table required_fields uni_lower uni_upper time_ok ip_ok uri_ok wid_ok mime_dec H b32 b64
+          http_req_ok http_resp_ok bo vid rt0 hs content new_id = (Ok r fnd, hs_out) ->
+    parse_record field_table required_fields uni_lower uni_upper time_ok ip_ok uri_ok wid_ok mime_dec H b32 b64
+                 http_req_ok http_resp_ok o (mkst (marshal r ++ rest) tl) []
+    = URec r None [] (mkst rest tl).
+Proof. intros. eapply built_record_round_trips_with_digests; eassumption. Qed.
+Print Assumptions C01_strictly_built_record_round_trips.
+
+(** base16 meets the contract for every supported algorithm, whatever the hash function is, as
+    long as it returns [alg_size] bytes; base32 and base64 have oracle decoders and stay with the
+    differential run *)
+Theorem C01_base16_meets_the_codec_contract :
+  forall uni_lower uni_upper H b32 b64 al e,
+    (forall a x, List.length (H a x) = alg_size a /\ Forall is_byte (H a x)) ->
+    codec_ok uni_lower uni_upper H b32 b64 e (fresh16 al) /\ digest_text_clean uni_lower H (fresh16 al).
+Proof. intros. split; [apply codec_ok_base16; assumption|apply digest_text_clean_base16; assumption]. Qed.
+Print Assumptions C01_base16_meets_the_codec_contract.
+
+(** non-vacuity: the default-style configuration (sha1, base16) on the response above *)
+Definition exd_opts := mkopts Fail Fail Fail Fail false true true true true true false false (bs "sha1") Base16.
+Definition exd_build := build field_table required_fields ex_idb ex_idb ex_yes ex_yes ex_yes ex_yes ex_nodec exb_h ex_nodec ex_nodec
+                              ex_yes ex_yes exd_opts 2 2 exn_hs exn_content [].
+Example C01_with_digest_hypotheses_are_satisfiable :
+  new_digest ex_idb ex_idb (o_alg exd_opts) (o_enc exd_opts) = Some (fresh16 SHA1) /\
+  is_ok (fst exd_build) = true /\
+  match fst exd_build with Ok r _ => N.of_nat (List.length (r_fields r)) = 8 | _ => False end.
+Proof. repeat split; vm_compute; reflexivity. Qed.
